@@ -12,6 +12,7 @@
    [wf nq nc c]: indices in range; Reset has one qubit and no clbit; Measure one qubit, one clbit. *)
 From CKT Require Import Common.Base Common.Circ Common.Herbrand Model.ResetPasses
   Proofs.ResetPassesP Proofs.ResetPassesSem Proofs.ResetPassesDag Proofs.ResetPassesDropped Proofs.ResetPassesSite.
+From CKT Require Import Common.QSim Model.ResetSim Proofs.ResetSimP Proofs.ResetSimQ.
 
 (* ------------------------------------------------------------------------------------------------
    (1) every pass deletes only Reset instructions; all other instructions stay, in order *)
@@ -161,6 +162,33 @@ Theorem c12_site_semantics_placeholder : forall nq nc pre m k, wf nq nc (pre ++ 
 Proof. exact site_semantics_placeholder. Qed.
 
 (* ------------------------------------------------------------------------------------------------
+   (5) NOT through the Herbrand denotation (no appeal to assumption M1): the two state-by-state passes in a
+   concrete semantics, the exact state-vector branch simulation of Model/ResetSim.v over Common/QSim.v
+   (gates x y z h s sdg sx sxdg cx cz swap ccx under any assignment [gi] of gate ids, measurements, resets,
+   barriers; any number of qubits).  [qbrun gi nq nc c] = the list of (classical register, unnormalised
+   state vector) branches of weight > 0 in program order: equal lists = the same joint law of all classical
+   bits together with the same conditional state of ALL qubits. *)
+Theorem c12_sim_consolidate : forall gi nq nc c, wf nq nc c = true ->
+  qbrun gi nq nc (consolidate_resets nq c) = qbrun gi nq nc c.
+Proof. exact q_consolidate. Qed.
+
+(* ... from any starting list of branches (any registers, any vectors of any length) *)
+Theorem c12_sim_consolidate_any : forall gi nq nc c l, wf nq nc c = true ->
+  clean vec_is_zero (brun (qgapply gi) qproj qflipx (consolidate_resets nq c) l)
+  = clean vec_is_zero (brun (qgapply gi) qproj qflipx c l).
+Proof. exact q_consolidate_any. Qed.
+
+Theorem c12_sim_zero : forall gi nq nc c, wf nq nc c = true ->
+  qbrun gi nq nc (remove_resets_in_zero_state nq c) = qbrun gi nq nc c.
+Proof. exact q_zero. Qed.
+
+(* hence the Born law (register, squared norm) branch by branch *)
+Theorem c12_sim_born_law : forall gi nq nc c, wf nq nc c = true ->
+  qlaw (qbrun gi nq nc (consolidate_resets nq c)) = qlaw (qbrun gi nq nc c) /\
+  qlaw (qbrun gi nq nc (remove_resets_in_zero_state nq c)) = qlaw (qbrun gi nq nc c).
+Proof. intros gi nq nc c W. now rewrite (q_consolidate gi nq nc c W), (q_zero gi nq nc c W). Qed.
+
+(* ------------------------------------------------------------------------------------------------
    non-vacuity: 2 qubits / 1 clbit; h = Gate 0, cx = Gate 1.
    resets leading, trailing, repeated, around a two-qubit gate on either argument,
    separated by barrier / measurement *)
@@ -231,6 +259,17 @@ Example c12_ex_site :
   nth 1 (hc (denote 2 2 (subexperiment_resets 2 true ex3))) None <> nth 1 (hc (denote 2 2 ex3)) None.
 Proof. repeat split; try reflexivity. vm_compute. discriminate. Qed.
 
+(* the concrete semantics on ex1 (h = Gate 0, cx = Gate 1): 2 branches of positive weight (the reset of q0 after
+   the Bell pair splits on q1's value, which the measurement of q1 then records), and both passes really delete something from ex1 *)
+Definition gi_ex (g : nat) : option qgate := match g with 0 => Some Gh | 1 => Some Gcx | _ => None end.
+Example c12_ex_sim :
+  length (qbrun gi_ex 2 1 ex1) = 2 /\
+  map fst (qlaw (qbrun gi_ex 2 1 ex1)) = [[false]; [true]] /\
+  length (qbrun gi_ex 2 1 [H0; CX 0 1; M 1 0]) = 2 /\
+  map fst (qlaw (qbrun gi_ex 2 1 [H0; CX 0 1; M 1 0])) = [[false]; [true]] /\
+  consolidate_resets 2 ex1 <> ex1 /\ remove_resets_in_zero_state 2 ex1 <> ex1.
+Proof. repeat split; try (vm_compute; reflexivity); vm_compute; discriminate. Qed.
+
 (* ------------------------------------------------------------------------------------------------
    facts regenerated from the source on every run *)
 From CKT Require Import Extracted.Facts.
@@ -285,6 +324,10 @@ Print Assumptions c12_dag_rfr_fix_is_fixed_point.
 Print Assumptions c12_dag_equiv_final.
 Print Assumptions c12_dag_equiv_consolidate.
 Print Assumptions c12_dag_equiv_consolidate_rest.
+Print Assumptions c12_sim_consolidate.
+Print Assumptions c12_sim_consolidate_any.
+Print Assumptions c12_sim_zero.
+Print Assumptions c12_sim_born_law.
 Print Assumptions c12_site_only_resets.
 Print Assumptions c12_site_semantics_observed.
 Print Assumptions c12_site_semantics_placeholder.
